@@ -192,6 +192,8 @@ def make_handler_class(scn, side):
         async def on_metadata_push(self, payload):
             d, m = A.pl(payload)
             self._ev('handler', k='mp', uid=None, sid=0, data=d, metadata=m)
+            if scn.cfg.get('mp_raises'):
+                raise A.AppError('metadata push handler raises')
 
         async def request_fire_and_forget(self, payload):
             sid, uid = scn.lookup(side)
@@ -267,7 +269,7 @@ def _scn_methods():
         end = src.get('end', 'flag')
         if kind == 'manual':
             p = L['ManualPublisher'](self.world, side, uid, dirn, tag, els, end, none_for_empty=self.none_empty,
-                                     cancel_raises=bool(src.get('cancel_raises')))
+                                     cancel_raises=bool(src.get('cancel_raises')), raise_in=src.get('raise_in'))
             st['pub'][dirn] = p
             return p
         if kind in ('gen', 'agen'):
@@ -678,6 +680,17 @@ async def _execute(loop, program, observe=None):
             if raw is not None:
                 scn.raw_request(next_start[0], op[1] if len(op) > 1 else None)
                 next_start[0] += 1
+        elif name == 'rawreuse':
+            # the raw peer sends a new request frame on the id of a (possibly live) interaction it opened earlier
+            if raw is not None:
+                uid = started_uid(op[1])
+                if uid is not None and scn.st[uid]['sid']:
+                    t = {'rr': 'REQUEST_RESPONSE', 'fnf': 'REQUEST_FNF', 'st': 'REQUEST_STREAM', 'ch': 'REQUEST_CHANNEL'}[op[2]]
+                    v = {'type': t, 'sid': scn.st[uid]['sid'], 'data': b'reuse', 'metadata': None}
+                    if op[2] in ('st', 'ch'):
+                        v['n'] = 3
+                    world.ev(raw.side, 'raw_reuse', uid=uid, k=op[2], sid=v['sid'])
+                    raw.send_value(v)
         elif name == 'rawf':
             if raw is not None:
                 uid = started_uid(op[1])
